@@ -1,2 +1,2 @@
-import NipyVerif.Model.C20K
-def main : IO Unit := NipyVerif.driverLoop NipyVerif.C20.runK
+import NipyVerif.Model.C20W
+def main : IO Unit := NipyVerif.driverLoop NipyVerif.C20.runW
